@@ -145,7 +145,8 @@ def path_modes(ctx, job, box):
 def path_roundtrip(ctx, job, box):
     """SM ?3 then RM ?3: back to the previous width, blank screen, cursor home."""
     cols, lines = job.params['geom']
-    run = GridRun(ctx, box, cols, lines, cursor='pick', tabstops=1, titles='none', saved_columns='none')
+    run = GridRun(ctx, box, cols, lines, cursor='pick', tabstops=1, titles='none',
+                  saved_columns=job.params.get('saved', 'none'))
     L = run.L
     run.call('set_mode', slice_u32([3]), True)
     run.call('reset_mode', slice_u32([3]), True)
@@ -186,6 +187,7 @@ def jobs(tier):
             js.append(Job('%s/3/1x1' % op, path_modes, op=op, n=3, geom=(1, 1), prop=PROP))
     for g in [(2, 1)] if tier == 'quick' else [(2, 1), (2, 2)]:
         js.append(Job('roundtrip/%dx%d' % g, path_roundtrip, geom=g, prop=PROP))
+        js.append(Job('roundtrip+stale/%dx%d' % g, path_roundtrip, geom=g, saved='sym', prop=PROP))
     # a screen that is already 132 columns wide (reached by resize, Screen::new or SM ?3 + RIS):
     # RM restores a remembered width, SM keeps the width
     for op in ('set_mode', 'reset_mode'):
